@@ -228,8 +228,8 @@ func c19Replay(kind string, raw json.RawMessage) (bool, string) {
 
 func init() {
 	mon.Register(&mon.Prop{
-		ID:   "C19",
-		Rule: "exhaustive: every ordered segment x every point and every ordered segment pair on the k x k lattice (k=6 quick, 8 thorough) under 6 affine re-encodings (integers, eighths, negated, +-2^20 translations, axis swap); random: segment/segment/point triples on the +-2^20 lattice biased to collinear, nested, endpoint-sharing and level-with-endpoint layouts. Non-trivial = distinct lattice segment (exhaustive part) or distinct random pair whose closed segments actually meet.",
+		ID:          "C19",
+		Rule:        "exhaustive: every ordered segment x every point and every ordered segment pair on the k x k lattice (k=6 quick, 8 thorough) under 6 affine re-encodings (integers, eighths, negated, +-2^20 translations, axis swap); random: segment/segment/point triples on the +-2^20 lattice biased to collinear, nested, endpoint-sharing and level-with-endpoint layouts. Non-trivial = distinct lattice segment (exhaustive part) or distinct random pair whose closed segments actually meet.",
 		Assumptions: []string{"coordinates are multiples of 1/8 with magnitude <= 2^20, where the library's float arithmetic on differences and products is exact", "oracle: int64 orientation predicates in internal/exact (cross-checked against an independent big.Rat implementation in its unit test)"},
 		Exhaustive:  func(string) bool { return true },
 		Run:         c19Run,
